@@ -137,3 +137,49 @@ def h1(prog):
     if n < 15:
         raise Broken("only %d range accesses outside coverage found (floor 15)" % n)
     return inst, findings
+
+
+def h4(prog):
+    """addresses are ordered by comparing them, never by the sign of their (wrapping) difference"""
+    inst, findings = [], []
+    n_cmp = 0
+    for f in prog.funcs.values():
+        rel = prog.rel(f["file"])
+        if not rel.startswith(("libzwerg/coverage", "libzwerg/builtin-aset", "libzwerg/value-aset")):
+            continue
+        body = f.get("body")
+        if body is None:
+            continue
+        # direct comparisons of unsigned addresses (instances)
+        for x in walk(body):
+            if x.get("k") == "bin" and x.get("op") in ("<", ">", "<=", ">="):
+                n_cmp += 1
+        # signed variables initialised from a difference of unsigned 64-bit values and then sign-tested
+        signed_diff = {}
+        for x in walk(body):
+            if x.get("k") == "decl":
+                for v in x["vars"]:
+                    t = v.get("t", "")
+                    if t in ("long", "const long", "long long", "int", "const int") and v.get("init") is not None:
+                        for y in walk(v["init"]):
+                            if y.get("k") == "bin" and y.get("op") == "-":
+                                signed_diff[v["id"]] = (v, y)
+        for x in walk(body):
+            if x.get("k") == "bin" and x.get("op") in ("<", ">", "<=", ">="):
+                l, r = unwrap(x["lhs"]), unwrap(x["rhs"])
+                for a, b in ((l, r), (r, l)):
+                    if isinstance(a, dict) and a.get("k") == "ref" and a.get("id") in signed_diff and isinstance(b, dict) and b.get("k") == "int" and b["v"] == 0:
+                        v, y = signed_diff[a["id"]]
+                        findings.append({"key": "H4:%s:%s" % (f["q"], v["n"]), "where": x.get("l") or f["l"],
+                                         "msg": "%s orders two addresses by the sign of their difference (`%s = %s`): for addresses 2^63 or more apart the sign is wrong, so ranges are searched/merged on the wrong side" % (f["q"], v["n"], short(y)[:50]),
+                                         "detail": None})
+                # (int64_t)(a - b) < 0 written inline
+                for a, b in ((x["lhs"], r), (x["rhs"], l)):
+                    if isinstance(a, dict) and a.get("k") == "cast" and a.get("t") in ("int64_t", "long", "long long", "ssize_t", "ptrdiff_t", "int") and \
+                       any(y.get("k") == "bin" and y.get("op") == "-" for y in walk(a)) and isinstance(b, dict) and b.get("k") == "int" and b["v"] == 0:
+                        findings.append({"key": "H4:%s:cast" % f["q"], "where": x.get("l") or f["l"],
+                                         "msg": "%s orders two addresses by the sign of a casted difference `%s`" % (f["q"], short(a)[:50]), "detail": None})
+    inst.append(("H4:address-comparisons", {"relational_comparisons_in_address_set_code": n_cmp}))
+    if n_cmp < 20:
+        raise Broken("fewer address comparisons than confirmed by hand (20): %d" % n_cmp)
+    return inst, findings
